@@ -575,6 +575,11 @@ type nativeResult struct {
 	err     error
 	unknown bool // some tuple's condition cannot be evaluated under this request's context
 	inModel bool // the request names types and a relation of the model
+	exp     refsem.Outcome
+	refUnk  bool
+	// knownSig: the native answer itself contradicts the reference semantics
+	// with the signature of a recorded engine defect.
+	knownSig string
 }
 
 func (n nativeResult) String() string {
@@ -618,51 +623,59 @@ func (k *checker) unknownUnder(ctx map[string]any) bool {
 	return v
 }
 
-// SigFirstTuplePerObject: a defect of the Check engine (C01 domain) that shows
-// through the native side of this differential. A sorted ReadStartingWithUser
-// (storagewrappers.CombinedTupleReader -> storage.OrderedCombinedIterator with
-// the object mapper) keeps only the first tuple per object id BEFORE the
-// invalid-tuple filter and the condition filter run, so of two tuples on the
-// same object and relation - one for the request user, one for its typed
-// wildcard - the second is lost even when the first is then filtered out. The
-// lost tuple may be the one that grants (reference True, engine false) or the
-// one whose condition cannot be evaluated (reference Unknown, engine false).
-const SigFirstTuplePerObject = "C01/sorted-read-keeps-first-tuple-per-object-before-filtering"
+// localClassify extends semkit.ClassifyCheck with root-cause signatures of
+// Check-engine defects (C01 domain) that were first seen through the native
+// side of this differential.
+//
+// semkit.SigSortedReadDedup, Unknown shape: the tuple lost by the sorted read
+// (see semkit) is the one whose condition cannot be evaluated, so the engine
+// answers false where the request must fail (reference Unknown).
+//
+// SigRecursiveUsersetRelation: a relation T#r with the restrictions
+// [T#r, T#r2, ...] is resolved for a user type that reaches T#r2 by no path
+// with the recursive-userset fast path (typesystem.UsersetUseRecursiveResolver
+// skips the T#r2 edge because it has no weight for that user type), but
+// checkutil.IteratorReadUsersetTuples hands the fast path the userset tuples
+// of EVERY restriction and the UsersetKind mapper keeps only their object:
+// a tuple T:a#r@T:b#r2 is followed as if it were T:a#r@T:b#r, and the engine
+// grants access that nobody has. Which strategy runs is chosen by the planner,
+// so the wrong answer is intermittent.
+const SigRecursiveUsersetRelation = "C01/recursive-userset-fast-path-ignores-userset-relation"
 
-// shadowPair recognises that signature structurally: some (object, relation)
-// holds both a tuple for the request user and a tuple for the typed wildcard
-// of its type (stored tuples including left-overs), and not both are
-// effective (valid for the model with a condition that is absent or true).
-func shadowPair(w gen.World, r m.Request) bool {
-	if m.UserKind(r.User) != "object" {
-		return false
+func localClassify(w gen.World, r m.Request, exp refsem.Outcome, allowed bool, err error) string {
+	if err != nil {
+		return ""
 	}
-	wild := m.UserType(r.User) + ":*"
-	type pair struct{ direct, wildcard, ineffective bool }
-	nodes := map[string]*pair{}
-	for _, tu := range append(append([]m.Tuple{}, w.Tuples...), w.Left...) {
-		if tu.User != r.User && tu.User != wild {
+	if !allowed && exp == refsem.Unknown && semkit.UserAndWildcardOnSameObjectNotBothEffective(w, r) {
+		return semkit.SigSortedReadDedup
+	}
+	if allowed && exp == refsem.False && recursiveUsersetOtherRelationTuple(w) {
+		return SigRecursiveUsersetRelation
+	}
+	return ""
+}
+
+// recursiveUsersetOtherRelationTuple: some relation T#r allows both its own
+// userset T#r and another userset T#r2 of the same type, and a valid stored
+// tuple on T#r has a user T:x#r2.
+func recursiveUsersetOtherRelationTuple(w gen.World) bool {
+	for _, tu := range w.Tuples {
+		ot, _ := m.SplitObject(tu.Object)
+		uo, urel := m.SplitUser(tu.User)
+		if urel == "" || urel == tu.Relation || m.UserType(uo) != ot {
 			continue
 		}
-		k := tu.Object + "#" + tu.Relation
-		if nodes[k] == nil {
-			nodes[k] = &pair{}
+		rel := w.Model.Relation(ot, tu.Relation)
+		if rel == nil {
+			continue
 		}
-		if tu.User == wild {
-			nodes[k].wildcard = true
-		} else {
-			nodes[k].direct = true
+		self := false
+		for _, re := range rel.Restr {
+			if re.Type == ot && re.Rel == tu.Relation {
+				self = true
+			}
 		}
-		effective := refsem.ValidForRead(w.Model, tu) == refsem.OK
-		if effective && tu.Cond != "" {
-			effective = refsem.EvalCondition(w.Model.Cond(tu.Cond), r.Ctx, tu.Ctx) == refsem.True
-		}
-		if !effective {
-			nodes[k].ineffective = true
-		}
-	}
-	for _, p := range nodes {
-		if p.direct && p.wildcard && p.ineffective {
+		if self {
 			return true
 		}
 	}
@@ -688,14 +701,16 @@ func (k *checker) nativeCheck(r m.Request) (res nativeResult, tooComplex bool, f
 		return res, false, nil
 	}
 	exp, unk := semkit.RefCheck(k.c.World, r)
+	res.exp, res.refUnk = exp, unk
 	if ok, why := semkit.CompareCheck(exp, unk, res.allowed, res.err); !ok {
 		sig := semkit.ClassifyCheck(k.c.World, r, exp, res.allowed, res.err)
-		if sig == "" && res.err == nil && !res.allowed && exp != refsem.False && shadowPair(k.c.World, r) {
-			sig = SigFirstTuplePerObject
+		if sig == "" {
+			sig = localClassify(k.c.World, r, exp, res.allowed, res.err)
 		}
 		if fw.IsKnown(sig) {
 			k.env.Rec.Known(sig)
 			k.class("native-check-known-defect")
+			res.knownSig = sig
 		} else {
 			return res, false, k.fail(sig, "native Check(%s) disagrees with the reference semantics: %s", r, why)
 		}
@@ -706,6 +721,12 @@ func (k *checker) nativeCheck(r m.Request) (res nativeResult, tooComplex bool, f
 // agree compares an AuthZEN answer with the native one. azErr: the answer
 // reports an error (request error, or context.error on a batch item).
 func (k *checker) agree(where string, n nativeResult, azDecision, azErr bool) *fw.Failure {
+	if n.knownSig != "" && ((n.err != nil) != azErr || (n.err == nil && n.allowed != azDecision)) {
+		// the native answer is already known to be wrong; the engine defect
+		// behind it may be order- or planner-dependent, so a difference between
+		// two runs is part of that finding
+		return k.fail(n.knownSig, "%s: native Check(%s) = %s (known engine defect) and AuthZEN decision=%v error=%v differ", where, n.req, n, azDecision, azErr)
+	}
 	switch {
 	case (n.err != nil) != azErr:
 		if n.unknown {
@@ -717,6 +738,21 @@ func (k *checker) agree(where string, n nativeResult, azDecision, azErr bool) *f
 	case azErr && azDecision:
 		return k.fail("C32/error-with-permit", "%s: an item that reports an error has decision=true (native Check(%s) = %s)", where, n.req, n)
 	case n.err == nil && n.allowed != azDecision:
+		// Both answers come from the same engine. When the AuthZEN-side answer
+		// is the one that contradicts the reference semantics and it matches the
+		// root-cause signature of an engine defect whose occurrence depends on
+		// the planner's strategy choice, report it under that signature.
+		if n.inModel {
+			if ok, _ := semkit.CompareCheck(n.exp, n.refUnk, azDecision, nil); !ok {
+				sig := semkit.ClassifyCheck(k.c.World, n.req, n.exp, azDecision, nil)
+				if sig == "" {
+					sig = localClassify(k.c.World, n.req, n.exp, azDecision, nil)
+				}
+				if sig != "" {
+					return k.fail(sig, "%s: the Check behind the AuthZEN answer (decision=%v) contradicts the reference semantics (%v); native Check(%s) = %s", where, azDecision, n.exp, n.req, n)
+				}
+			}
+		}
 		return k.fail("C32/decision-mismatch", "%s: native Check(%s) = %s but AuthZEN decision=%v", where, n.req, n, azDecision)
 	}
 	return nil
@@ -816,6 +852,17 @@ func (k *checker) batch(nat []nativeResult) *fw.Failure {
 func js(v any) string {
 	b, _ := json.Marshal(v)
 	return string(b)
+}
+
+// searchSig: ListUsers / ListObjects call Check internally; in a world that
+// holds the structural trigger of the planner-dependent engine defect
+// SigRecursiveUsersetRelation two runs of the same native search may differ,
+// so a search mismatch there is reported under that signature.
+func (k *checker) searchSig(sig string) string {
+	if recursiveUsersetOtherRelationTuple(k.c.World) {
+		return SigRecursiveUsersetRelation
+	}
+	return sig
 }
 
 func sameSet(a, b []string) bool {
@@ -927,7 +974,7 @@ func (k *checker) search(s Search) (nt bool, f *fw.Failure) {
 				k.env.Rec.Add("search_results_differ_under_unevaluable_condition", 1)
 				return false, nil
 			}
-			return false, k.fail("C32/subject-search-mismatch", "SubjectSearch(%s): ListUsers(%s#%s, filter %s, ctx=%v) = %v but AuthZEN returned %v", js(it), it.Resource.Type+":"+it.Resource.ID, it.Action.Name, it.Subject.Type, ctx, semkit.SortedSet(want), semkit.SortedSet(got))
+			return false, k.fail(k.searchSig("C32/subject-search-mismatch"), "SubjectSearch(%s): ListUsers(%s#%s, filter %s, ctx=%v) = %v but AuthZEN returned %v", js(it), it.Resource.Type+":"+it.Resource.ID, it.Action.Name, it.Subject.Type, ctx, semkit.SortedSet(want), semkit.SortedSet(got))
 		}
 		if len(want) > 0 {
 			k.class("subject-search:non-empty")
@@ -962,7 +1009,7 @@ func (k *checker) search(s Search) (nt bool, f *fw.Failure) {
 				k.env.Rec.Add("search_results_differ_under_unevaluable_condition", 1)
 				return false, nil
 			}
-			return false, k.fail("C32/resource-search-mismatch", "ResourceSearch(%s): ListObjects(%s, %s, %s, ctx=%v) = %v but AuthZEN returned %v", js(it), it.Resource.Type, it.Action.Name, user, ctx, semkit.SortedSet(want), semkit.SortedSet(got))
+			return false, k.fail(k.searchSig("C32/resource-search-mismatch"), "ResourceSearch(%s): ListObjects(%s, %s, %s, ctx=%v) = %v but AuthZEN returned %v", js(it), it.Resource.Type, it.Action.Name, user, ctx, semkit.SortedSet(want), semkit.SortedSet(got))
 		}
 		if len(want) > 0 {
 			k.class("resource-search:non-empty")
@@ -1009,7 +1056,7 @@ func (k *checker) search(s Search) (nt bool, f *fw.Failure) {
 				k.env.Rec.Add("search_results_differ_under_unevaluable_condition", 1)
 				return false, nil
 			}
-			return false, k.fail("C32/action-search-mismatch", "ActionSearch(%s): the relations native Check allows are %v but AuthZEN returned %v", js(it), semkit.SortedSet(want), got)
+			return false, k.fail(k.searchSig("C32/action-search-mismatch"), "ActionSearch(%s): the relations native Check allows are %v but AuthZEN returned %v", js(it), semkit.SortedSet(want), got)
 		}
 		if len(want) > 0 {
 			k.class("action-search:non-empty")
